@@ -184,6 +184,23 @@ def handleIntMat : Handler
   | ["snf_reduce_cols", h, gens, rows] => do
     let s ← mkSt h gens rows "-"
     some (pst (s.bind (·.reduceCols)))
+  -- diagnostics for the finding keys: product of the pivots after the row phase (the first assert of reduce)
+  | ["snf_reduce_diag", h, gens, rows] => do
+    let s ← mkSt h gens rows "-"
+    some (match s.bind (·.reduceRows) with
+      | none => "panic-rows"
+      | some s1 =>
+        match (s1.checkDiag false).bind (fun (s2, det) => s2.hack det) with
+        | none => "panic-check"
+        | some (s3, det) => s!"rowphase {det} {s3.h}")
+  | ["snf_pipeline_diag", rels, h] => do
+    let rels ← parseSparse rels; let h ← parseNat h
+    some (match (St.new rels h).bind (·.reduceRows) with
+      | none => "panic-rows"
+      | some s1 =>
+        match (s1.checkDiag false).bind (fun (s2, det) => s2.hack det) with
+        | none => "panic-check"
+        | some (s3, det) => s!"rowphase {det} {s3.h}")
   | ["snf_reduce", h, gens, rows] => do
     let s ← mkSt h gens rows "-"
     some (pst (s.bind (·.reduce)))
